@@ -54,6 +54,33 @@ fn run(ctx: &Ctx) {
     ctx.run_tape("hs_header", hs_header, ctx.pick(50_000, 500_000), 200);
     ctx.run_tape("datagram", datagram, ctx.pick(20_000, 200_000), 1500);
     ctx.run_tape("frame_raw", frame_raw, ctx.pick(50_000, 400_000), 80);
+    // records packed to the cap with the smallest messages of each kind: alerts (2 bytes), ChangeCipherSpec (1 byte), header-only
+    // handshake messages and zero-length fragments (12 bytes) - message counts on both sides of 2^14 / size and of the 2^14+256 cap / size
+    ctx.run_fn("dense_records", true, "records of 8192 / 8193 / 8320 alerts, 16384 / 16385 / 16640 ChangeCipherSpec bytes, 1365 / 1366 / 1386 header-only handshake messages or zero-length fragments", |obs| {
+        let mut cases: Vec<(String, MDtlsRecord)> = Vec::new();
+        for n in [8192usize, 8193, 8320] {
+            cases.push((format!("{} alerts", n), MDtlsRecord { ctype: 0x15, version: 0xfefd, epoch: 1, seq: n as u64, msgs: (0..n).map(|k| MDtlsMsg::Alert(1 + (k % 2) as u8, k as u8)).collect() }));
+        }
+        for n in [16384usize, 16385, 16640] {
+            cases.push((format!("{} ChangeCipherSpec bytes", n), MDtlsRecord { ctype: 0x14, version: 0xfefd, epoch: 0, seq: n as u64, msgs: vec![MDtlsMsg::Ccs; n] }));
+        }
+        for n in [1365usize, 1366, 1386] {
+            cases.push((format!("{} empty ServerHelloDone messages", n), MDtlsRecord { ctype: 0x16, version: 0xfefd, epoch: 0, seq: n as u64, msgs: (0..n).map(|k| MDtlsMsg::Hs(MDtlsHs { msg_type: 14, length: 0, message_seq: k as u16, fragment_offset: 0, fragment_length: 0, body: MDtlsBody::ServerDone(vec![]) })).collect() }));
+            cases.push((format!("{} zero-length fragments", n), MDtlsRecord { ctype: 0x16, version: 0xfeff, epoch: 2, seq: n as u64, msgs: (0..n).map(|k| MDtlsMsg::Hs(MDtlsHs { msg_type: 11, length: 1000, message_seq: 3, fragment_offset: k as u32, fragment_length: 0, body: MDtlsBody::Fragment(vec![]) })).collect() }));
+        }
+        for (what, rec) in cases {
+            obs.evals_add(1);
+            let buf = rec.to_bytes();
+            ensure!(buf.len() <= 13 + CAP, "harness:c10-dense", "{}: {} bytes", what, buf.len());
+            match check_cut(&buf, obs)? {
+                Some(Out::Ok { rec: Some(got), .. }) => ensure!(got == rec, "C10:dense:value", "a record of {} ({} bytes): {} message(s) decoded, {} written", what, buf.len() - 13, got.msgs.len(), rec.msgs.len()),
+                _ => return fail("C10:dense:rejected", format!("a well-formed record of {} ({} bytes) was rejected: {}", what, buf.len() - 13, describe(&call(&buf)?))),
+            }
+            obs.nontrivial(fnv64(&buf));
+            obs.sample(json!({"record": what, "payload_bytes": buf.len() - 13}));
+        }
+        Ok(())
+    });
     // "ChangeCipherSpec and alert records decode as in TLS": the message-level DTLS parsers against their TLS siblings, on every input
     // of 0, 1 and 2 bytes and on 3-byte inputs derived from the seed (value, remainder, Incomplete size and error kind must agree)
     let seed = ctx.seed;
